@@ -59,11 +59,12 @@ extern int mpt_fpoint_set(MPT_STRUCT(fpoint) *pt, MPT_INTERFACE(convertable) *sr
 		if ((ret = mpt_iterator_consume(it, 'f', &tmp.x)) < 0) {
 			return ret;
 		}
-		if (!ret) {
+		/* single value is used for both coordinates */
+		if (!ret || (ret = mpt_iterator_consume(it, 'f', &tmp.y)) == MPT_ERROR(MissingData)) {
 			ret = 1;
 			tmp.y = tmp.x;
 		}
-		else if ((ret = mpt_iterator_consume(it, 'f', &tmp.y)) < 0) {
+		else if (ret < 0) {
 			return ret;
 		}
 		else {
